@@ -4,6 +4,7 @@ import (
 	"bytes"
 	"encoding/json"
 	"fmt"
+	"math/big"
 	"math/rand/v2"
 	"reflect"
 	"runtime"
@@ -12,6 +13,7 @@ import (
 	"strings"
 	"sync"
 	"sync/atomic"
+	"time"
 
 	jsonv2 "github.com/go-json-experiment/json"
 	"github.com/go-json-experiment/json/jsontext"
@@ -41,6 +43,7 @@ type mfield struct {
 	OmitEmpty bool   `json:"omitempty"`
 	Str       bool   `json:"str"`
 	Casing    int    `json:"casing"`
+	Fmt       string `json:"fmt"`
 }
 
 var anyRT = reflect.TypeOf((*any)(nil)).Elem()
@@ -92,6 +95,10 @@ func (t *mtype) goType() reflect.Type {
 		default:
 			rt = reflect.TypeOf(uint64(0))
 		}
+	case "dur":
+		rt = reflect.TypeOf(time.Duration(0))
+	case "time":
+		rt = reflect.TypeOf(time.Time{})
 	case "bytes":
 		rt = reflect.TypeOf([]byte(nil))
 	case "barr":
@@ -124,6 +131,9 @@ func (t *mtype) goType() reflect.Type {
 			}
 			if f.Str {
 				parts = append(parts, "string")
+			}
+			if f.Fmt != "" {
+				parts = append(parts, "format:"+f.Fmt)
 			}
 			fs[i] = reflect.StructField{Name: "F" + strconv.Itoa(i), Type: f.T.goType(),
 				Tag: reflect.StructTag(`json:` + strconv.Quote(strings.Join(parts, ",")))}
@@ -195,6 +205,19 @@ func (t *mtype) set(v reflect.Value, g any) {
 			}
 			v.SetUint(n)
 		}
+	case "dur":
+		n, _ := new(big.Int).SetString(digitsToString(m["mag"]), 10)
+		if m["neg"].(bool) {
+			n.Neg(n)
+		}
+		v.SetInt(n.Int64())
+	case "time":
+		n, _ := new(big.Int).SetString(digitsToString(m["mag"]), 10)
+		if m["neg"].(bool) {
+			n.Neg(n)
+		}
+		sec, nsec := new(big.Int).DivMod(n, big.NewInt(1e9), new(big.Int)) // Euclidean: 0 <= nsec
+		v.Set(reflect.ValueOf(time.Unix(sec.Int64(), nsec.Int64()).UTC()))
 	case "bytes":
 		if m["nil"].(bool) {
 			v.SetZero()
@@ -341,6 +364,15 @@ func (t *mtype) render(v reflect.Value) any {
 			return map[string]any{"neg": n < 0, "mag": digitsOf(strings.TrimPrefix(s, "-"))}
 		}
 		return map[string]any{"neg": false, "mag": digitsOf(strconv.FormatUint(v.Uint(), 10))}
+	case "dur":
+		n := v.Int()
+		s := strconv.FormatInt(n, 10)
+		return map[string]any{"neg": n < 0, "mag": digitsOf(strings.TrimPrefix(s, "-"))}
+	case "time":
+		t := v.Interface().(time.Time)
+		n := new(big.Int).Mul(big.NewInt(t.Unix()), big.NewInt(1e9))
+		n.Add(n, big.NewInt(int64(t.Nanosecond())))
+		return map[string]any{"neg": n.Sign() < 0, "mag": digitsOf(new(big.Int).Abs(n).String())}
 	case "bytes", "barr":
 		bs := []any{}
 		for i := 0; i < v.Len(); i++ {
@@ -418,7 +450,7 @@ type mopts struct {
 }
 
 func (o mopts) options() []jsonv2.Options {
-	var out []jsonv2.Options
+	out := []jsonv2.Options{jsonv2.ExperimentalSupportFormatTag(true)}
 	if o.Det {
 		out = append(out, jsonv2.Deterministic(true))
 	}
@@ -611,6 +643,13 @@ func modelOfDesc(t *tdesc) *mtype {
 				return nil
 			}
 			ft := modelOfDesc(f.T)
+			if f.T.K == "time" || f.T.K == "duration" || (f.T.K == "ptr" && (f.T.Elem.K == "time" || f.T.Elem.K == "duration")) {
+				k := map[string]string{"time": "time", "duration": "dur"}[strings.TrimPrefix(f.T.K+f.T.elemK(), "ptr")]
+				ft = &mtype{K: k}
+				if f.T.K == "ptr" {
+					ft = &mtype{K: "ptr", E: ft}
+				}
+			}
 			if ft == nil {
 				return nil
 			}
@@ -632,9 +671,18 @@ func modelOfDesc(t *tdesc) *mtype {
 					case "string":
 						mf.Str = true
 					default:
-						return nil
+						fm, ok := strings.CutPrefix(o, "format:")
+						if !ok || !map[string]bool{"sec": true, "milli": true, "micro": true, "nano": true, "unix": true, "unixmilli": true, "unixmicro": true, "unixnano": true}[fm] {
+							return nil
+						}
+						mf.Fmt = fm
 					}
 				}
+			}
+			if base := strings.TrimPrefix(f.T.K+f.T.elemK(), "ptr"); base == "time" && mf.Fmt == "" {
+				return nil // the default representation of time.Time (RFC 3339) is not modelled
+			} else if base != "time" && base != "duration" && mf.Fmt != "" {
+				return nil
 			}
 			m.F = append(m.F, mf)
 		}
@@ -659,7 +707,7 @@ func (t *mtype) data() map[string]any {
 	case "struct":
 		fs := []any{}
 		for _, f := range t.F {
-			fs = append(fs, map[string]any{"name": f.Name, "t": f.T.data(), "omitzero": f.OmitZero, "omitempty": f.OmitEmpty, "str": f.Str, "casing": f.Casing})
+			fs = append(fs, map[string]any{"name": f.Name, "t": f.T.data(), "omitzero": f.OmitZero, "omitempty": f.OmitEmpty, "str": f.Str, "casing": f.Casing, "fmt": f.Fmt})
 		}
 		return map[string]any{"k": "struct", "f": fs}
 	}
@@ -729,6 +777,7 @@ func modelExec(c *modelCase) {
 	}()
 	r := newRngPCG(c.Seed[0], c.Seed[1])
 	cfg := &typeCfg{maxDepth: 1 + r.IntN(4), maxFields: 1 + r.IntN(6), tags: true, anys: true, floats: true, plainNames: r.IntN(3) != 0,
+		times: r.IntN(2) == 0, formats: true,
 		mapKeys: []string{"string", "string", "int", "int8", "uint64", "uint16"}}
 	td := genTypeDesc(r, cfg, 0)
 	mt := modelOfDesc(td)
@@ -909,4 +958,11 @@ func numbersInsideModel(text []byte, floats bool) bool {
 			return false
 		}
 	}
+}
+
+func (t *tdesc) elemK() string {
+	if t.K == "ptr" && t.Elem != nil {
+		return t.Elem.K
+	}
+	return ""
 }
